@@ -174,6 +174,119 @@ def htpasswd_level(ctx):
             os.unlink(f.name)
 
 
+def cache_history_level(ctx):
+    """htpasswd_cache = True: histories of file edits (same size / other size / touch only) and logins; every
+    answer must be the one the file as it is now gives (oracle) and the cached model's (correspondence)."""
+    from radicale import auth, config
+    quiet_radicale()
+    rng = ctx.rng("htcache")
+    hp = hash_pool()
+    n = ctx.n(60, 3000)
+    users = ["alice", "bobby", "carol", "dave1"]           # equal length: swapping one for another keeps the size
+    pws = ["secret", "wrong!", "Secret"]                    # equal length
+    for i in range(n):
+        scheme = rng.choice(["plain", "md5", "sha256", "sha512", "bcrypt", "autodetect"])
+
+        def digest(pw):
+            s_ = scheme if scheme != "autodetect" else "md5"      # $apr1$, 37 characters
+            if s_ == "plain":
+                return pw
+            if (s_, pw) not in hp:
+                import bcrypt
+                from passlib.hash import apr_md5_crypt, sha256_crypt, sha512_crypt
+                hp[(s_, pw)] = {"md5": lambda: apr_md5_crypt.using(salt="abcdefgh").hash(pw),
+                                "sha256": lambda: sha256_crypt.using(rounds=1000, salt="abcdefghijklmnop").hash(pw),
+                                "sha512": lambda: sha512_crypt.using(rounds=1000, salt="abcdefghijklmnop").hash(pw),
+                                "bcrypt": lambda: bcrypt.hashpw(pw.encode(), bcrypt.gensalt(rounds=4)).decode()}[s_]()
+            return hp[(s_, pw)]
+        table = {u: rng.choice(pws) for u in rng.sample(users, rng.randint(1, 3))}
+
+        def lines_of(t):
+            return ["%s:%s" % (u, digest(p)) for u, p in t.items()]
+        f = tempfile.NamedTemporaryFile("w", suffix=".htpasswd", delete=False, encoding="utf-8")
+        f.close()
+        clock = [1_700_000_000_000_000_000]
+
+        def write(t, touch=True):
+            with open(f.name, "w", encoding="utf-8") as g:
+                g.write("\n".join(lines_of(t)) + "\n")
+            if touch:
+                clock[0] += rng.choice([1, 1000, 1_000_000_000])      # even a 1 ns step must be noticed
+            os.utime(f.name, ns=(clock[0], clock[0]))
+        try:
+            write(table)
+            conf = config.load()
+            conf.update({"auth": {"type": "htpasswd", "htpasswd_filename": f.name, "htpasswd_encryption": scheme,
+                                  "htpasswd_cache": "True", "delay": "0", "cache_logins": "False"}}, "verif", privileged=True)
+            a = auth.load(conf)
+            st = os.stat(f.name)
+            init = {"lines": [chars(x) for x in lines_of(table)], "size": st.st_size, "mtime": st.st_mtime_ns}
+            steps = []
+            results = []
+            expected = []
+            edits = []
+            all_entries = {}
+            for k in range(rng.randint(3, 10)):
+                e = rng.random()
+                ed = "-"
+                free = [x for x in users if x not in table]
+                if e < 0.35 and table:
+                    u = rng.choice(list(table))
+                    table[u] = rng.choice([p for p in pws if p != table[u]])
+                    ed = "password of %s changed (same size)" % u
+                elif e < 0.5 and table and free:
+                    u = rng.choice(list(table))
+                    v = rng.choice(free)
+                    table = {(v if x == u else x): p for x, p in table.items()}
+                    ed = "%s replaced by %s (same size)" % (u, v)
+                elif e < 0.6 and len(table) > 1:
+                    u = rng.choice(list(table))
+                    del table[u]
+                    ed = "%s removed" % u
+                elif e < 0.7 and free:
+                    table[rng.choice(free)] = rng.choice(pws)
+                    ed = "user added"
+                elif e < 0.8:
+                    ed = "touched"
+                if ed != "-":
+                    write(table)
+                edits.append(ed)
+                login = rng.choice(users)
+                pw = rng.choice(pws)
+                st = os.stat(f.name)
+                for u, p in table.items():
+                    all_entries[(u, digest(p))] = 1
+                steps.append({"lines": [chars(x) for x in lines_of(table)], "size": st.st_size, "mtime": st.st_mtime_ns,
+                              "login": chars(login), "pw": chars(pw)})
+                try:
+                    got = a.login(login, pw)[0]
+                except Exception as ex:
+                    got = "EXC:" + repr(ex)
+                results.append(got)
+                expected.append(login if table.get(login) == pw else "")
+            rows = []
+            for (u, d) in all_entries:
+                for pw in pws:
+                    for s_ in ("md5", "sha256", "sha512", "bcrypt"):
+                        h = d.strip() if s_ != "bcrypt" else d
+                        rows.append({"scheme": s_, "hash": chars(h), "pw": chars(pw), "ok": verify_real(s_, h, pw)})
+            ans = ctx.driver.ask1({"m": "authgate", "op": "htpasswd_hist", "scheme": scheme, "oracle": rows, "init": init,
+                                   "steps": steps}) if ctx.driver else None
+            case = {"scheme": scheme, "edits_and_logins": [(ed, unchars(s_["login"]), unchars(s_["pw"])) for ed, s_ in zip(edits, steps)]}
+            for k, (got, exp) in enumerate(zip(results, expected)):
+                ctx.case("htcache:%s:%s" % (scheme, "ok" if exp else "reject"), sample=dict(case, step=k, result=got), key=[i, k],
+                         nontrivial=edits[k] != "-")
+                if got != exp:
+                    ctx.violation("htpasswd_cache: login %r/%r after %r answers %r, the file as it is now says %r" % (
+                        unchars(steps[k]["login"]), unchars(steps[k]["pw"]), edits[k], got, exp), dict(case, step=k), exp, got)
+                    break
+                if ans is not None and unchars(ans["r"][k]) != got:
+                    ctx.disagree("cached htpasswd login history vs model", dict(case, step=k), got, unchars(ans["r"][k]))
+                    break
+        finally:
+            os.unlink(f.name)
+
+
 PROPFIND_CUP = ('<?xml version="1.0"?><D:propfind xmlns:D="DAV:"><D:prop><D:current-user-principal/></D:prop></D:propfind>')
 
 
@@ -297,9 +410,11 @@ def gate_level(ctx):
 def run(ctx):
     ctx.extra["rule"] = ("(a) generated htpasswd files (comments, blanks, colons / non-ASCII / leading blanks in passwords, five schemes side by "
                          "side, wrong-length and near-miss hashes) x encryption in {plain,md5,sha256,sha512,bcrypt,autodetect} x cache on/off x "
-                         "12 attempts each; (b) requests with every Authorization shape and identity headers against five back-ends; "
+                         "12 attempts each; (a2) htpasswd_cache=True: histories of 3-10 file edits (same-size password change, user swapped, "
+                         "removed, added, touch only, 1 ns mtime steps) each followed by a login; (b) requests with every Authorization shape and identity headers against five back-ends; "
                          "non-trivial = an entry for the login exists / the request is not a plain anonymous one")
     ctx.trusted += ["passlib / bcrypt verifiers (the model's hash oracle is their truth table)", "hmac.compare_digest = equality",
                     "LDAP/IMAP/PAM/OAuth2/Dovecot back-ends are outside the model (only the common gate applies)"]
     htpasswd_level(ctx)
+    cache_history_level(ctx)
     gate_level(ctx)
